@@ -296,6 +296,7 @@ func StructBuilder(env *Zlisp, name string,
 	// before: a failed declaration must not destroy the previous
 	// definition, nor leave the empty one behind.
 	prevType := GoStructRegistry.Lookup(structName)
+	prevScript := GoStructRegistry.Scriptdef[structName]
 	prevBound, hadBinding := env.linearstack.symbolInTopScope(symN)
 	declared := false
 	defer func() {
@@ -310,12 +311,7 @@ func StructBuilder(env *Zlisp, name string,
 					"could not be put back: %v)", err, structName, berr)
 			}
 		}
-		if prevType != nil {
-			GoStructRegistry.RegisterScriptdef(prevType, structName)
-		} else {
-			delete(GoStructRegistry.Registry, structName)
-			delete(GoStructRegistry.Scriptdef, structName)
-		}
+		GoStructRegistry.reinstate(structName, prevType, prevScript)
 	}()
 
 	{
